@@ -153,9 +153,9 @@ class NMAP(Application, discriminator="nmap"):
     @staticmethod
     def _explode_ip_address_network_array(
         target_ip_address: Union[IPV4Address, List[IPV4Address], IPv4Network, List[IPv4Network]]
-    ) -> Set[IPv4Address]:
+    ) -> List[IPv4Address]:
         """
-        Explode a mixed array of IP addresses and networks into a set of individual IP addresses.
+        Explode a mixed array of IP addresses and networks into the unique individual IP addresses, in the order given.
 
         This method takes a combination of single and lists of IPv4 addresses and IPv4 networks, expands any networks
         into their constituent subnet useable IP addresses, and returns a set of unique IP addresses. Broadcast and
@@ -178,7 +178,9 @@ class NMAP(Application, discriminator="nmap"):
                 ]
             else:
                 ip_addresses.append(ip_address)
-        return set(ip_addresses)
+        # unique addresses in first-seen order: a set would be iterated in an order that depends on the interpreter's
+        # string hash seed, and with it the order of pings, port probes and reported results
+        return list(dict.fromkeys(ip_addresses))
 
     @validate_call()
     def ping_scan(
@@ -374,7 +376,7 @@ class NMAP(Application, discriminator="nmap"):
             if self.software_manager.node.ip_is_network_interface(ip_address=ip_address):
                 continue
             for protocol in target_protocol:
-                for port in set(target_port):
+                for port in dict.fromkeys(target_port):
                     port_open = self._check_port_open_on_ip_address(ip_address=ip_address, port=port, protocol=protocol)
                     if port_open:
                         if show:
